@@ -64,7 +64,7 @@ Definition strategy (e : tenv) (m : mode) (t : ty) : strat :=
           | TAr _ et => SArray e' et
           | TSl et => if is_byte et then SBytes else SSlice e' et
           | TM _ vt => SMap e' vt
-          | TSt fs => if is_named r then SFields e' fs else SUnsup  (* field recurses without end *)
+          | TSt fs => SFields e' fs   (* named: helper for *T; unnamed: its own function (fix 79c20b1; before: endless recursion) *)
           | _ => SStuck
           end
       end
